@@ -444,12 +444,12 @@ func (x *c15) mapsArray(idx int) {
 	c := x.c
 	r := c.Rand(idx, 15)
 	n := r.Range(0, 6)
-	kind := idx % 3      // key values: 0 integers (negative, zero, positive), 1 strings (the empty string included), 2 floats
+	kind := idx % 4      // key values: 0 integers (negative, zero, positive), 1 strings (the empty string included), 2 floats, 3 a mix of the three
 	kname := "k"         // the key sorted by; "size" is an ordinary key here although maps also have a size property
 	if (idx/3)%4 == 3 {
 		kname = "size"
 	}
-	typed := r.P(1, 3) // []map[string]int / string / float64: a zero value is a value, not a missing key
+	typed := r.P(1, 3) && kind != 3 // []map[string]int / string / float64: a zero value is a value, not a missing key
 	var objs []gen.V
 	var typedI []map[string]int
 	var typedS []map[string]string
@@ -468,7 +468,11 @@ func (x *c15) mapsArray(idx int) {
 			objs = append(objs, gen.Map(gen.KV{K: "id", V: id}, gen.KV{K: kname, V: gen.Nil}))
 		default:
 			var kv gen.V
-			switch kind {
+			vk := kind
+			if kind == 3 {
+				vk = r.Intn(3)
+			}
+			switch vk {
 			case 0:
 				v := r.Range(-3, 4)
 				kv, ti[kname] = gen.Int(int64(v)), v
@@ -584,6 +588,7 @@ func (x *c15) mapsArray(idx int) {
 		}
 		sawKey := false
 		var prev gen.V
+		var seenKeys []gen.V
 		for _, id := range ids {
 			k, has := keyOf[id]
 			if !has {
@@ -595,6 +600,14 @@ func (x *c15) mapsArray(idx int) {
 			if sawKey && ref.Less(k, prev) == ref.True {
 				viol("sort: key must order the rest ascending by key")
 			}
+			// ... also across records whose keys are of another kind in between: no record stands before one with a smaller key
+			for _, earlier := range seenKeys {
+				if ref.Less(k, earlier) == ref.True {
+					viol("sort: key must order the rest ascending by key (a record stands before one with a smaller key)")
+					break
+				}
+			}
+			seenKeys = append(seenKeys, k)
 			sawKey, prev = true, k
 		}
 	}
